@@ -159,6 +159,19 @@ class NpShim:
         return r
 
     @staticmethod
+    def asarray(obj, dtype=None, *a, **k):
+        # np.asarray(values, dtype=float) is another spelling of np.array(values, dtype=float) (without the copy)
+        if (dtype is None or dtype is float) and _has_sym(obj):
+            if isinstance(obj, _np.ndarray):
+                return obj
+            if _is_sym(obj):
+                out = _np.empty((), dtype=object)
+                out[()] = obj
+                return out
+            return _np.array(obj, dtype=object)
+        return _np.asarray(obj, dtype, *a, **k)
+
+    @staticmethod
     def zeros(shape, dtype=None, *a, **k):
         r = _np.zeros(shape, dtype if dtype is not None else float, *a, **k)
         return _to_obj(r) if dtype in (None, float) else r
